@@ -8,7 +8,7 @@
 #
 import re
 
-from ural.patterns import QUERY_VALUE_IN_URL_TEMPLATE
+from ural.patterns import QUERY_VALUE_IN_URL_TEMPLATE, CONTROL_CHARS_RE
 from ural.utils import unquote, urljoin
 
 OBVIOUS_REDIRECTS_RE = re.compile(
@@ -42,10 +42,12 @@ def infer_redirection(url, recursive=True):
         string: Redirected url or the original url if nothing was found.
     """
 
-    # NOTE: percent-encoded letters must not hide a redirect-like key or a
-    # cache domain ("?%75rl=" is "?url=")
+    # NOTE: percent-encoded letters and control characters (which every url
+    # function drops) must not hide a redirect-like key or a cache domain
+    # ("?%75rl=" and "?u\x00rl=" are "?url=")
     original_url = url
     url = LETTER_ESCAPES_RE.sub(_unescape_letter, url)
+    url = CONTROL_CHARS_RE.sub("", url)
 
     redirection_split = REDIRECTION_DOMAINS_RE.split(url, 1)
 
